@@ -112,6 +112,31 @@ def run_ppmod(ctx, c):
     v = resolve(c["a"], W, 2 * nb)
     V = wbuf(x, v, 2 * nb)
     x.call("ppRedBelt", V, ret="v"); chk("ppRedBelt", int.from_bytes(V.read(0, 16), "little"), G.mod(v, (1 << 128) | 0x87))
+    # sparse reductions (pp.h): trinomial x^m + x^k + 1 (m % 8 != 0, k > 0, m - k >= B_PER_W), pentanomial x^m + x^k + x^l + x^l1 + 1
+    # (k > l > l1 > 0, m - k >= B_PER_W, k < B_PER_W); the dividend has 2 W_OF_B(m) words (any content)
+    h = int.from_bytes(__import__("hashlib").sha256(repr((c["tb"], c["n"], c["a"], c["mod"])).encode()).digest(), "little")
+    m = W + 3 + h % 520
+    h >>= 16
+    nn = (m + W - 1) // W
+    a3 = resolve(c["a"], W, 2 * nn)
+    if h & 1:
+        a3 &= (1 << (2 * m - 1)) - 1        # a product of two reduced elements
+    h >>= 1
+    k = 3 + h % (min(W - 1, m - W) - 2); h >>= 12
+    l = 2 + h % (k - 2); h >>= 12
+    l1 = 1 + h % (l - 1); h >>= 12
+    P = x.buf(b"".join(v.to_bytes(8, "little") for v in (m, k, l, l1)))
+    A3 = wbuf(x, a3, 2 * nn)
+    x.call("ppRedPentanomial", A3, P, ret="v")
+    chk("ppRedPentanomial(m=%d k=%d l=%d l1=%d)" % (m, k, l, l1), int.from_bytes(A3.read(0, nn * x.wo), "little"), G.mod(a3, (1 << m) | (1 << k) | (1 << l) | (1 << l1) | 1))
+    ctx.nontrivial("ppred5", m % W, k > m % W, l > m % W, l1 > m % W, nn)
+    if m % 8:
+        kt = 1 + h % (m - W)
+        T = x.buf(b"".join(v.to_bytes(8, "little") for v in (m, kt)))
+        A3 = wbuf(x, a3, 2 * nn)
+        x.call("ppRedTrinomial", A3, T, ret="v")
+        chk("ppRedTrinomial(m=%d k=%d)" % (m, kt), int.from_bytes(A3.read(0, nn * x.wo), "little"), G.mod(a3, (1 << m) | (1 << kt) | 1))
+        ctx.nontrivial("ppred3", m % W, kt % W, kt // W, nn)
     ctx.sample(c)
 
 
